@@ -1,6 +1,6 @@
 """C13 — Keepalives keep the pair warm; sending stops when consent is lost or revoked."""
-import json, os, re
-from lib import vlib, simlib
+import json, os, re, struct
+from lib import vlib, simlib, stunpy
 from checks.common import conclude
 from checks import simcommon as sc
 
@@ -63,6 +63,7 @@ def scenario(args):
             s.op("runidle 60000")
             # no crash is the claim; additionally: every authenticated request B got after the revocation is answered 403
             bad += check_403_after_revoke(s)
+            bad += probe_after_revoke(s, rng)
             return dict(seed=seed, kind=kind, bad=bad, script=s.script, info=info)
         steps = sc.signalling_steps(rng, cfg)
         sc.deliver_signalling(s, rng, steps)
@@ -149,6 +150,46 @@ def first_state(s, ag, state, after=0):
         if m and m.group(2) == ag and m.group(5) == state and int(m.group(1)) >= after:
             return int(m.group(1))
     return None
+
+
+def probe_after_revoke(s, rng):
+    """B revoked its consent locally: whatever happened since (pairs selected or replaced, READY announced), properly
+    authenticated checks that reach B later must still be answered 403.  The probes are built outside libnice with the
+    stream's real credentials and sent from A's own candidate address."""
+    bad = []
+    ca, cb = s.op("getcreds A 1")[1].split(), s.op("getcreds B 1")[1].split()
+    if len(ca) < 7 or len(cb) < 7:
+        return bad
+    ua, ub, pwb = ca[4], cb[4], cb[6]
+    addrs = {"A": [], "B": []}
+    for e in s.events():
+        m = re.match(r"t=\d+ (\w+) new-candidate \d+ type=0 .*comp=1 .* addr=(\S+) base", e)
+        if m:
+            addrs[m.group(1)].append(m.group(2))
+    if not addrs["A"] or not addrs["B"]:
+        return bad
+    sent = {}
+    for k in range(3):
+        txid = bytes(rng.randrange(256) for _ in range(12))
+        attrs = [(stunpy.A_USERNAME, (ub + ":" + ua).encode()), (stunpy.A_PRIORITY, struct.pack("!I", 1845501695)),
+                 (stunpy.A_CONTROLLING, struct.pack("!Q", 2 ** 64 - 1))]
+        p = stunpy.build(0, 1, txid, attrs, key=pwb.encode(), fingerprint=True)
+        s.op(f"inject {addrs['A'][0]} {addrs['B'][0]} {p.hex()}")
+        sent[(struct.pack("!I", stunpy.MAGIC) + txid).hex()] = k
+        s.op("run 1500")
+    answers = {}
+    for e in s.events():
+        m = re.match(r"t=\d+ tx B \S+ len=\d+ stun class=(\d) method=1 .*err=(\d+) .*txid=(\w+)", e)
+        if m and m.group(3) in sent:
+            answers[m.group(3)] = (m.group(1), m.group(2))
+    for t, k in sent.items():
+        a = answers.get(t)
+        if a is None:
+            bad.append(("probe-unanswered", f"authenticated check #{k} sent to B after its local revocation got no answer at all"))
+        elif a != ("3", "403"):
+            bad.append(("not-403", f"authenticated check #{k} sent to B long after its local revocation was answered with class={a[0]} "
+                                   f"err={a[1]} instead of 403 (B state: {s.op('q B 1 1')[1][:60]})"))
+    return bad[:2]
 
 
 def check_403_after_revoke(s):
